@@ -326,9 +326,20 @@ func rgCfg(r *rand.Rand, o rgOpts) vx.M {
 	rules := []interface{}{}
 	nr := r.Intn(o.maxRules + 1)
 	var prev []vx.M // the entries generated so far (all rules)
+	// tenants: every rule is for a host of its own and (mostly) has a filter of its own
+	tenants := o.filters && r.Intn(4) == 0
+	if tenants && nr < 2 {
+		nr = 2
+	}
+	hostAt := r.Intn(len(rgHostNames))
 	for i := 1; i <= nr; i++ {
 		rule := vx.M{"host": []interface{}{}, "hostRE": rgNoRE(), "ipf": rgNoFilter()}
-		switch r.Intn(6) { // half of the rules have no host condition
+		kind := r.Intn(6)
+		if tenants {
+			kind = 6
+			rule["host"] = rhChars(rgHostNames[(hostAt+i)%len(rgHostNames)])
+		}
+		switch kind { // half of the rules have no host condition
 		case 0:
 			rule["host"] = rhChars(rgPick(r, rgHostNames))
 		case 1:
@@ -340,6 +351,9 @@ func rgCfg(r *rand.Rand, o rgOpts) vx.M {
 		np := r.Intn(o.maxPaths + 1)
 		if o.filters {
 			rule["ipf"] = rgFilter(r, 40)
+			if tenants {
+				rule["ipf"] = rgFilter(r, 85)
+			}
 			// a rule that is mostly a gate: a filter for its hosts and few entries of its own, so
 			// that requests pass it on the way to a later rule
 			if vx.Bool(rule["ipf"].(vx.M)["on"]) && r.Intn(2) == 0 {
